@@ -1,3 +1,4 @@
+mod cases;
 mod ctl;
 mod pure;
 mod sched;
@@ -184,6 +185,7 @@ fn main() {
     let code = match args.get(1).map(|s| s.as_str()) {
         Some("sched") => cmd_sched(&args[2..]),
         Some("pure") => pure::cmd_pure(&args[2..]),
+        Some("cases") => cases::cmd_cases(&args[2..]),
         _ => {
             eprintln!("usage: vh <sched|...> ...");
             2
